@@ -248,7 +248,24 @@ class Evaluator:
             r = self.call_hook(self, qn, args, env, n)
             if r is not NotImplemented:
                 return r
-        return UNKNOWN
+        return self.inline_pure(qn, args, env)
+
+    def inline_pure(self, qn, args, env):
+        """A repository function whose body is a single `return <expr>;` is evaluated in place
+        (path helpers, small predicates); anything else is UNKNOWN."""
+        depth = getattr(self, '_inline_depth', 0)
+        if not qn or depth >= 4:
+            return UNKNOWN
+        gs = [g for g in self.prog.by_name(qn) if g.body is not None and not g.is_pattern]
+        if len(gs) != 1 or len(gs[0].params) != len(args):
+            return UNKNOWN
+        body = [x for x in children(gs[0].body) if not x.get('kind', '').endswith('Comment')]
+        if len(body) != 1 or body[0].get('kind') != 'ReturnStmt' or not children(body[0]):
+            return UNKNOWN
+        sub = Evaluator(self.prog, gs[0], self.call_hook)
+        sub._inline_depth = depth + 1
+        env2 = {p['id']: self.ev(a, env) for p, a in zip(gs[0].params, args)}
+        return sub.ev(children(body[0])[0], env2)
 
     # ---- statements ---------------------------------------------------------
     def run(self, env):
